@@ -238,13 +238,18 @@ func (fr *frame) contractCall(v ssa.Value, callee *ssa.Function, ct *Contract, a
 			fr.havocKey(mk, env)
 		}
 	}
+	// the callee may allocate: the allocation counter moves forward
+	allocPre := fr.st.get(u, allocKey)
+	allocPost := u.declConst(fr.tag("alloc_after"), "Int")
+	u.assert("(>= " + allocPost + " " + allocPre + ")")
+	fr.st.set(allocKey, allocPost)
 	// results
 	var rs []Val
 	res := callee.Signature.Results()
 	for i := 0; i < res.Len(); i++ {
 		rs = append(rs, fr.freshOfType(fmt.Sprintf("%s_r%d", callee.Name(), i), res.At(i).Type()))
 	}
-	post := &specEnv{u: u, st: fr.st, old: pre, vars: env.vars, pkgPath: ct.PkgPath, callee: callee, results: rs, freeCells: env.freeCells}
+	post := &specEnv{u: u, st: fr.st, old: pre, vars: env.vars, pkgPath: ct.PkgPath, callee: callee, results: rs, freeCells: env.freeCells, freshBase: allocPre}
 	if len(ct.GhostMaps) > 0 {
 		post.ghost = map[string]string{}
 		for _, g := range ct.GhostMaps {
@@ -291,6 +296,15 @@ func (env *specEnv) resolveModifies(mk string) (ts []modTarget, ok bool) {
 			ts = append(ts, modTarget{u.keyM(sl.Elem()), ""})
 		}
 		return ts, true
+	}
+	if strings.HasPrefix(mk, "bitmap(") && strings.HasSuffix(mk, ")") {
+		inner := strings.TrimSuffix(strings.TrimPrefix(mk, "bitmap("), ")")
+		if e, err := ParseSpec(inner); err == nil {
+			if v, err := env.anyExpr(e, nil); err == nil && v.typ != nil {
+				return []modTarget{{u.roaringKey(), env.term(v, v.typ)}}, true
+			}
+		}
+		return nil, false
 	}
 	for _, pfx := range []string{"field(", "locks("} {
 		if strings.HasPrefix(mk, pfx) && strings.HasSuffix(mk, ")") {
